@@ -355,17 +355,20 @@ pub(crate) fn cast_binary_to_string<O: OffsetSizeTrait>(
 
     match GenericStringArray::<O>::try_from_binary(array.clone()) {
         Ok(a) => Ok(Arc::new(a)),
-        Err(e) => match cast_options.safe {
-            true => {
-                // Fallback to slow method to convert invalid sequences to nulls
-                let mut builder =
-                    GenericStringBuilder::<O>::with_capacity(array.len(), array.value_data().len());
+        Err(e) => {
+            // Fallback to slow method to convert invalid sequences to nulls
+            let mut builder =
+                GenericStringBuilder::<O>::with_capacity(array.len(), array.value_data().len());
 
-                extend_valid_utf8(&mut builder, array.iter());
-                Ok(Arc::new(builder.finish()))
+            extend_valid_utf8(&mut builder, array.iter());
+            let result = builder.finish();
+            // The fast path validates the whole value buffer, including bytes under null
+            // slots: only fail if a non-null value really is invalid UTF-8
+            if !cast_options.safe && result.null_count() != array.null_count() {
+                return Err(e);
             }
-            false => Err(e),
-        },
+            Ok(Arc::new(result))
+        }
     }
 }
 
